@@ -287,6 +287,33 @@ pub fn state_metadata(_cex: &Value) -> Result<String, String> {
         }
       }
     }
+    // foreign controllers that are valid IOTA DIDs but not in normal form (explicit default network, upper-case hex tag) are
+    // foreign DIDs like any other: carried through unchanged, one or several of them
+    {
+      use identity_core::convert::{FromJson, ToJson};
+      let tag = "0x".to_owned() + &"ab".repeat(32);
+      let forms = [format!("did:iota:iota:{tag}"), format!("did:iota:0x{}", "AB".repeat(32)), format!("did:iota:smr:0x{}", "Cd".repeat(32))];
+      for n in 1..=forms.len() {
+        let ctrl: serde_json::Value = if n == 1 { serde_json::Value::String(forms[0].clone()) } else { serde_json::json!(forms[..n].to_vec()) };
+        let base: serde_json::Value = serde_json::from_str(&IotaDocument::new_with_id(did_self.clone()).to_json().unwrap()).unwrap();
+        let mut v = base.clone();
+        v["doc"]["controller"] = ctrl.clone();
+        let Ok(d2) = IotaDocument::from_json(&v.to_string()) else {
+          continue; // the document type refuses this controller form up front: nothing to carry through
+        };
+        for tgt in [&did_self, &target] {
+          match d2.clone().pack().and_then(|p| StateMetadataDocument::unpack(&p)).and_then(|x| x.into_iota_document(tgt)) {
+            Ok(r) => {
+              let got: Vec<String> = r.controller().map(|c| c.to_string()).collect();
+              if got != forms[..n].to_vec() {
+                log.push(format!("[rebase] foreign IOTA controllers {:?} come back as {got:?} after rebasing onto {tgt}", &forms[..n]));
+              }
+            }
+            Err(e) => log.push(format!("[rebase] document with foreign IOTA controllers {:?} fails to rebase: {e}", &forms[..n])),
+          }
+        }
+      }
+    }
     // metadata members with default-looking values survive pack / unpack (Some(false), empty strings)
     {
       for deact in [None, Some(false), Some(true)] {
@@ -432,6 +459,52 @@ pub fn iota_did(cex: &Value) -> Result<String, String> {
               log.push(format!("[ctor] IotaDID::{which} with deserialised network name {raw:?} yields {text:?}: not a normalised, re-parsable IOTA DID"));
             }
           }
+        }
+      }
+    }
+    // every network name is kept exactly (only the default network's name is omitted) - in particular names that contain, start or
+    // end with the default name; every such DID re-parses, exposes that name and differs from the default-network DID
+    let default_did = IotaDID::new(&[0xab; 32], &NetworkName::try_from("iota").unwrap());
+    for name in ["iota2", "iotax", "iota42", "iotaa", "xiota", "1iota", "aiota", "iot", "io", "i", "ota", "iotb", "jota", "main", "smr", "a", "a1b2c3"] {
+      let Ok(n) = NetworkName::try_from(name.to_owned()) else {
+        log.push(format!("[network] network name {name:?} rejected"));
+        continue;
+      };
+      for (how, d) in [("new", IotaDID::new(&[0xab; 32], &n)), ("from_alias_id", IotaDID::from_alias_id(&format!("0x{}", "ab".repeat(32)), &n)), ("parse", match IotaDID::parse(format!("did:iota:{name}:0x{}", "ab".repeat(32))) {
+        Ok(d) => d,
+        Err(e) => {
+          log.push(format!("[normal] did:iota:{name}:<tag> rejected: {e}"));
+          continue;
+        }
+      })] {
+        if d.network_str() != name || d.to_string() != format!("did:iota:{name}:0x{}", "ab".repeat(32)) {
+          log.push(format!("[normal] network {name:?} via {how}: value is {d}, network_str() = {:?}", d.network_str()));
+        }
+        if d == default_did {
+          log.push(format!("[normal] network {name:?} via {how}: equal to the default-network DID with the same tag"));
+        }
+        if IotaDID::parse(d.to_string()).ok().as_ref() != Some(&d) {
+          log.push(format!("[normal] network {name:?} via {how}: {d} does not re-parse to an equal value"));
+        }
+      }
+    }
+    // the method is exactly "iota": names that contain or extend it are other methods - through every route
+    for method in ["iotax", "iota2", "iotaledger", "xiota", "iot", "io", "ota", "iota-", "iota.", "iota_", "i", "jota"] {
+      for rest in [format!("0x{}", "ab".repeat(32)), format!("dev:0x{}", "ab".repeat(32))] {
+        let s = format!("did:{method}:{rest}");
+        if IotaDID::parse(&s).is_ok() {
+          log.push(format!("[valid] {s:?} accepted"));
+        }
+        if let Ok(core) = CoreDID::parse(&s) {
+          if IotaDID::check_validity(&core).is_ok() || IotaDID::is_valid(&core) {
+            log.push(format!("[valid] check_validity / is_valid accept {s:?}"));
+          }
+          if IotaDID::try_from(core).is_ok() {
+            log.push(format!("[valid] TryFrom<CoreDID>({s:?}) accepted"));
+          }
+        }
+        if serde_json::from_str::<IotaDID>(&format!("\"{s}\"")).is_ok() {
+          log.push(format!("[valid] deserialisation accepts {s:?}"));
         }
       }
     }
